@@ -40,6 +40,15 @@ def error_blocks(b, names=ERR_NAMES):
     return out
 
 
+def adopt_ty(F, ty):
+    """the type of the field that keeps the entry's own dimension sets: something holding JsonEncodedArrays directly, or a private enum /
+    struct of the crate with such a payload (`enum DimensionSets { Configured, PerEntry(Vec<JsonEncodedArray>) }`)"""
+    if "JsonEncodedArray" in ty:
+        return True
+    a = F.adts.get(ty)
+    return bool(a) and a["crate"] == CR and any("JsonEncodedArray" in f["ty"] for v in a["variants"] for f in v["fields"])
+
+
 def record_ctor_family(F):
     """the constructor of the per-dimension-set record (returns a struct of this crate with the record's two text buffers), its closures,
     and the private helpers only it calls (with their closures): where the record's constant prefix is put together"""
@@ -399,7 +408,7 @@ def run(ctx):
         stores = []
         for i in b.live_blocks():
             for st in b.stmts(i):
-                if st["k"] == "assign" and has_deref(st["lhs"]) and place_fields(st["lhs"]) and "JsonEncodedArray" in (st["lhs"]["p"][-1][4] if len(st["lhs"]["p"][-1]) > 4 else ""):
+                if st["k"] == "assign" and has_deref(st["lhs"]) and place_fields(st["lhs"]) and adopt_ty(F, st["lhs"]["p"][-1][4] if len(st["lhs"]["p"][-1]) > 4 else ""):
                     stores.append((i, place_fields(st["lhs"])[-1]))
         if not regs and not stores:
             continue
@@ -427,7 +436,7 @@ def run(ctx):
         if not c02.in_scope(b) or b.kind == "Closure":
             continue
         stores = [i for i in b.live_blocks() for st in b.stmts(i) if st["k"] == "assign" and has_deref(st["lhs"]) and place_fields(st["lhs"]) and
-                  "JsonEncodedArray" in (st["lhs"]["p"][-1][4] if len(st["lhs"]["p"][-1]) > 4 else "")]
+                  adopt_ty(F, st["lhs"]["p"][-1][4] if len(st["lhs"]["p"][-1]) > 4 else "")]
         if not stores:
             continue
         n8 += 1
